@@ -27,6 +27,7 @@ const (
 	W = "ws"
 	L = "crossbar"
 	K = "leave" // the client of a connection that joined before the race goes away (Hub.drop)
+	P = "pre"   // passive: a connection of the booking that joined before the race and just stays
 )
 
 type Obs struct {
@@ -39,6 +40,7 @@ type Obs struct {
 	WsLive   bool `json:"wslive"`   // the websocket thread's connection is joined at quiescence
 	NewSess  int  `json:"newsess"`  // status of a fresh session request made at quiescence
 	Readmit  bool `json:"readmit"`  // after an explicit allow at the very end, a new session + websocket joins again
+	PreLive  bool `json:"prelive"`  // the connection that had joined before the race is still joined at quiescence
 }
 
 type Case struct {
@@ -108,6 +110,9 @@ func (r *runner) enabledSet(bid string, threads []string, leavePending bool) []s
 			}
 			continue
 		}
+		if k == P {
+			continue
+		}
 		if r.c.parkedAt(k+":"+bid) != "" {
 			en = append(en, k)
 		}
@@ -174,7 +179,7 @@ func (r *runner) runWith(family string, threads []string, choose func(i int, en 
 		r.c.mu.Unlock()
 	}
 	leavePending := false
-	if has(threads, K) {
+	if has(threads, K) || has(threads, P) {
 		st, uri, _ := r.rl.Session(topic, r.bearer(bid, exp))
 		if st != 200 {
 			cs.Err = fmt.Sprintf("pre-session status %d", st)
@@ -185,7 +190,7 @@ func (r *runner) runWith(family string, threads []string, choose func(i int, en 
 			cs.Err = "pre-joined connection did not join"
 			return cs, nil
 		}
-		leavePending = true
+		leavePending = has(threads, K)
 	}
 	r.c.mu.Lock()
 	r.c.managed[bid] = true
@@ -265,7 +270,7 @@ func (r *runner) runWith(family string, threads []string, choose func(i int, en 
 	}
 	// quiescence: nothing parked; wait for the threads to finish
 	for _, k := range threads {
-		if k == K {
+		if k == K || k == P {
 			continue
 		}
 		if err := r.waitDone(k + ":" + bid); err != nil {
@@ -282,8 +287,8 @@ func (r *runner) runWith(family string, threads []string, choose func(i int, en 
 	if has(threads, W) {
 		cs.Obs.WsLive = r.stableListed(wsUA)
 	}
-	if has(threads, K) && r.stableListed(preUA) {
-		cs.Obs.WsLive = true
+	if has(threads, K) || has(threads, P) {
+		cs.Obs.PreLive = r.stableListed(preUA)
 	}
 	for k, code := range issued {
 		ua := fmt.Sprintf("probe-%s-%d", bid, k)
@@ -311,6 +316,47 @@ func (r *runner) runWith(family string, threads []string, choose func(i int, en 
 	// leave no trace for later scenarios
 	r.rl.Allow(bid, time.Now().Unix()+1, r.admin)
 	return cs, enabledAt
+}
+
+// denyHoldsUntilItsExpiry: session with a short token (allow entry expiring at t0+2), deny until t0+5;
+// at t0+3.4 (several prunes after the short token's expiry) the deny must still be in force, at t0+6.6
+// (after the deny's own expiry and a prune) it must have lapsed.
+func (r *runner) denyHoldsUntilItsExpiry() []lib.Violation {
+	var out []lib.Violation
+	bid := fmt.Sprintf("timed-%d", os.Getpid())
+	topic := "t-" + bid
+	for time.Now().Nanosecond() > 100e6 {
+		time.Sleep(5 * time.Millisecond)
+	}
+	t0 := time.Now().Unix()
+	hist := []string{}
+	note := func(f string, a ...interface{}) { hist = append(hist, fmt.Sprintf(f, a...)) }
+	bad := func(clause, detail string) {
+		out = append(out, lib.Violation{Clause: clause, Case: -1, Detail: detail + " [history: " + strings.Join(hist, "; ") + "]",
+			Replay: map[string]interface{}{"history": hist}, Key: clause})
+	}
+	st, _, _ := r.rl.Session(topic, r.bearer(bid, t0+2))
+	note("t0+0 session with a token expiring at t0+2 -> %d", st)
+	dst := r.rl.Deny(bid, t0+5, r.admin).Status
+	note("t0+0 deny until t0+5 -> %d", dst)
+	if st != 200 || dst != 204 {
+		return out // nothing to say: the set-up itself was refused (reported by other checks)
+	}
+	time.Sleep(time.Until(time.Unix(t0+3, 400e6)))
+	st2, _, _ := r.rl.Session(topic, r.bearer(bid, t0+600))
+	dl, _ := r.rl.BidList("deny", r.admin)
+	note("t0+3.4 session with a long token -> %d, on deny list: %v", st2, has(dl, bid))
+	if st2 == 200 || !has(dl, bid) {
+		bad("deny-lapsed-before-its-expiry", "the deny was given expiry t0+5, no allow was requested, yet at t0+3.4 the booking is accepted again / off the deny list")
+	}
+	time.Sleep(time.Until(time.Unix(t0+6, 600e6)))
+	st3, _, _ := r.rl.Session(topic, r.bearer(bid, t0+600))
+	note("t0+6.6 session with a long token -> %d", st3)
+	if st3 != 200 {
+		bad("deny-outlives-its-expiry", "the deny's own expiry t0+5 has passed (and the prune loop runs every 250 ms) but the booking is still refused at t0+6.6")
+	}
+	r.rl.Allow(bid, time.Now().Unix()+1, r.admin)
+	return out
 }
 
 // waitListed polls /status until the user agent is (not) listed, up to 2 s.
@@ -409,7 +455,7 @@ func oracle(cs Case, idx int, res *lib.Result) {
 	if !cs.Obs.Denied {
 		bad("deny-erased", "deny acknowledged, no later allow request, but the booking is not on the deny list at quiescence")
 	}
-	if cs.Obs.WsLive {
+	if cs.Obs.WsLive || cs.Obs.PreLive {
 		bad("connection-survives-deny", "deny acknowledged, but a connection made under the booking is still joined at quiescence")
 	}
 	if cs.Obs.CodeLeft {
@@ -432,7 +478,7 @@ func (cs Case) coq() string {
 	}
 	o := cs.Obs
 	obs := lib.App("mkobs", lib.N(uint64(o.Sess)), lib.N(uint64(o.Deny)), lib.N(uint64(o.Allow)), lib.Bool(o.Denied), lib.Bool(o.Allowed),
-		lib.Bool(o.CodeLeft), lib.Bool(o.WsLive), lib.N(uint64(o.NewSess)), lib.Bool(o.Readmit))
+		lib.Bool(o.CodeLeft), lib.Bool(o.WsLive), lib.N(uint64(o.NewSess)), lib.Bool(o.Readmit), lib.Bool(o.PreLive))
 	return lib.Tuple(lib.List(th), lib.List(sc), obs)
 }
 
@@ -441,7 +487,7 @@ func main() {
 	res := lib.NewResult("C07", a.Seed, a.Tier)
 	c := newCtl()
 	verifhook.SetController(c.point)
-	rl := lib.StartRelay(lib.RelayOpts{})
+	rl := lib.StartRelay(lib.RelayOpts{PruneEvery: 250 * time.Millisecond})
 	r := &runner{rl: rl, c: c, admin: rl.AdminBearer("relay:admin"), stats: rl.AdminBearer("relay:stats")}
 
 	var cases []Case
@@ -468,10 +514,14 @@ func main() {
 				}
 			}
 		}()
+		// "… until the expiry given in the deny request": a timed history beside the enumeration
+		timed := make(chan []lib.Violation, 1)
+		go func() { timed <- r.denyHoldsUntilItsExpiry() }()
 		// exhaustive: every interleaving of the two-actor families
 		r.enumerate("SD", []string{S, D}, &cases)
 		r.enumerate("WD", []string{W, D}, &cases)
 		r.enumerate("KD", []string{K, D}, &cases)
+		r.enumerate("PWD", []string{P, W, D}, &cases)
 		if a.Tier == "thorough" {
 			r.enumerate("SDA", []string{S, D, A}, &cases)
 			r.enumerate("WDA", []string{W, D, A}, &cases)
@@ -479,12 +529,19 @@ func main() {
 			r.enumerate("KDA", []string{K, D, A}, &cases)
 			r.sample("SWDA", []string{S, W, D, A}, a.Pick(0, 600), rng, &cases)
 			r.sample("SWKDA", []string{S, W, K, D, A}, a.Pick(0, 600), rng, &cases)
+			r.enumerate("PWDA", []string{P, W, D, A}, &cases)
+			r.sample("PSWDA", []string{P, S, W, D, A}, a.Pick(0, 400), rng, &cases)
 		} else {
 			r.sample("SDA", []string{S, D, A}, a.Pick(60, 0), rng, &cases)
 			r.sample("WDA", []string{W, D, A}, a.Pick(60, 0), rng, &cases)
 			r.sample("SWD", []string{S, W, D}, a.Pick(50, 0), rng, &cases)
 			r.sample("SWKDA", []string{S, W, K, D, A}, a.Pick(50, 0), rng, &cases)
+			r.sample("PSWDA", []string{P, S, W, D, A}, a.Pick(40, 0), rng, &cases)
 		}
+		for _, v := range <-timed {
+			res.Violate(v)
+		}
+		res.Count("timed:deny-expiry-history")
 		dl, _ := rl.BidList("deny", r.admin)
 		if !r.listed("bystander-conn") || has(dl, byBid) {
 			res.Violate(lib.Violation{Clause: "other-booking-affected", Case: -1, Detail: "a connection on a booking that no request named was closed or denied during the run", Replay: map[string]string{"bystander": byBid}, Key: "other-booking-affected"})
